@@ -275,3 +275,102 @@ Proof.
     + pose proof (Z.div_mod z 256 ltac:(lia)). lia.
     + split; [apply Z.div_pos; lia|]. apply Z.div_lt_upper_bound; lia.
 Qed.
+
+(* ---------------- a call does not depend on the caller's locals / prefix; a larger program ---------------- *)
+Definition with_pre (s : state) (p : string) : state :=
+  {| mem := mem s; loc := loc s; pre := p; files := files s; ptrs := ptrs s; fresh := fresh s |}.
+
+Lemma call_caller_indep : forall prog vt fuel f pfx vs s l p v s',
+  call prog vt fuel f pfx vs s = Ok (v, s') ->
+  call prog vt fuel f pfx vs {| mem := mem s; loc := l; pre := p; files := files s; ptrs := ptrs s; fresh := fresh s |}
+  = Ok (v, {| mem := mem s'; loc := l; pre := p; files := files s'; ptrs := ptrs s'; fresh := fresh s' |}).
+Proof.
+  unfold call. intros prog vt fuel f pfx vs s l p v s' H. cbn [mem loc pre files ptrs fresh].
+  destruct (lget prog f) as [fn|]; [|discriminate].
+  apply bind_Ok in H. destruct H as [l0 [Hl H]]. rewrite Hl. cbn [bind].
+  apply bind_Ok in H. destruct H as [[o s1] [H1 H]]. rewrite H1. cbn [bind].
+  injection H as Hv Hs. subst v. subst s'. reflexivity.
+Qed.
+
+(* the exec of SCall / SCallVirt is a `call` followed by the assignment of the result *)
+Lemma exec_scall_call : forall prog vt fuel ret f this args s vs pfx v s',
+  eval_list s args = Ok vs -> this_prefix s this = Ok pfx ->
+  call prog vt fuel f pfx vs s = Ok (v, s') ->
+  exec prog vt (S fuel) (SCall ret f this args) s = (do s2 <- set_ret s' ret v; Ok (Normal, s2)).
+Proof.
+  intros prog vt fuel ret f this args s vs pfx v s' Hv Hp Hc. cbn [exec]. rewrite Hv. cbn [bind]. rewrite Hp. cbn [bind].
+  unfold call in Hc. destruct (lget prog f) as [fn|]; [|discriminate].
+  apply bind_Ok in Hc. destruct Hc as [l [Hl Hc]]. rewrite Hl. cbn [bind].
+  apply bind_Ok in Hc. destruct Hc as [[o s1] [H1 Hc]]. rewrite H1. cbn [bind].
+  injection Hc as Hv' Hs. subst v s'. reflexivity.
+Qed.
+
+(* functions found in prog are found (the same) in prog ++ ext: a successful execution is unchanged by linking more code *)
+Lemma lget_app : forall A (a b : list (string * A)) k,
+  lget (a ++ b) k = match lget a k with Some v => Some v | None => lget b k end.
+Proof. induction a as [|[k' v'] r IH]; intros b k; cbn; auto. destruct (String.eqb k k'); auto. Qed.
+
+Section Extend.
+Variable prog ext : program.
+Variable vtab : list (string * string).
+
+Lemma exec_prog_extend : forall fuel st s r, exec prog vtab fuel st s = Ok r -> exec (prog ++ ext) vtab fuel st s = Ok r.
+Proof.
+  induction fuel as [|fuel IH]; intros st s r H; [discriminate|].
+  assert (CALL : forall ret fname pfx vs r0,
+    match lget prog fname with
+    | None => UB ("no function " ++ fname)%string
+    | Some f => do l <- bind_params (f_params f) vs;
+                do r1 <- exec prog vtab fuel (f_body f) {| mem := mem s; loc := l; pre := pfx; files := files s; ptrs := ptrs s; fresh := fresh s |};
+                let '(o, s1) := r1 in
+                do s2 <- set_ret {| mem := mem s1; loc := loc s; pre := pre s; files := files s1; ptrs := ptrs s1; fresh := fresh s1 |} ret
+                                 (match o with Returned v => v | _ => None end);
+                Ok (Normal, s2)
+    end = Ok r0 ->
+    match lget (prog ++ ext) fname with
+    | None => UB ("no function " ++ fname)%string
+    | Some f => do l <- bind_params (f_params f) vs;
+                do r1 <- exec (prog ++ ext) vtab fuel (f_body f) {| mem := mem s; loc := l; pre := pfx; files := files s; ptrs := ptrs s; fresh := fresh s |};
+                let '(o, s1) := r1 in
+                do s2 <- set_ret {| mem := mem s1; loc := loc s; pre := pre s; files := files s1; ptrs := ptrs s1; fresh := fresh s1 |} ret
+                                 (match o with Returned v => v | _ => None end);
+                Ok (Normal, s2)
+    end = Ok r0).
+  { intros ret fname pfx vs r0 Hc. rewrite lget_app. destruct (lget prog fname) as [f|]; [|discriminate].
+    apply bind_Ok in Hc. destruct Hc as [l [Hl Hc]]. rewrite Hl. cbn [bind].
+    apply bind_Ok in Hc. destruct Hc as [r1 [Hr1 Hc]]. rewrite (IH _ _ _ Hr1). cbn [bind]. exact Hc. }
+  destruct st; cbn [exec] in H |- *; try exact H.
+  - apply bind_Ok in H. destruct H as [[o s1] [H1 H2]]. rewrite (IH _ _ _ H1). cbn [bind]. destruct o; auto.
+  - apply bind_Ok in H. destruct H as [cv [Hc H]]. rewrite Hc. cbn [bind].
+    apply bind_Ok in H. destruct H as [x [Hx H]]. rewrite Hx. cbn [bind]. destruct (x =? 0); auto.
+  - apply bind_Ok in H. destruct H as [cv [Hc H]]. rewrite Hc. cbn [bind].
+    apply bind_Ok in H. destruct H as [x [Hx H]]. rewrite Hx. cbn [bind]. destruct (x =? 0); auto.
+    apply bind_Ok in H. destruct H as [[o s1] [H1 H]]. rewrite (IH _ _ _ H1). cbn [bind].
+    destruct o; auto.
+    apply bind_Ok in H. destruct H as [[o2 s2] [H2 H]]. rewrite (IH _ _ _ H2). cbn [bind].
+    destruct o2; auto.
+  - apply bind_Ok in H. destruct H as [[o s1] [H1 H]]. rewrite (IH _ _ _ H1). cbn [bind].
+    destruct o; auto.
+    apply bind_Ok in H. destruct H as [cv [Hc H]]. rewrite Hc. cbn [bind].
+    apply bind_Ok in H. destruct H as [x [Hx H]]. rewrite Hx. cbn [bind]. destruct (x =? 0); auto.
+  - apply bind_Ok in H. destruct H as [vs [Hv H]]. rewrite Hv. cbn [bind].
+    apply bind_Ok in H. destruct H as [pfx [Hp H]]. rewrite Hp. cbn [bind]. apply CALL. exact H.
+  - apply bind_Ok in H. destruct H as [vs [Hv H]]. rewrite Hv. cbn [bind].
+    apply bind_Ok in H. destruct H as [pfx [Hp H]]. rewrite Hp. cbn [bind].
+    destruct (lget vtab pfx); [apply CALL; exact H|].
+    destruct (lget (ptrs s) (class_key pfx)) as [[z|cls off|]|]; try discriminate. apply CALL. exact H.
+  - apply bind_Ok in H. destruct H as [vs [Hv H]]. rewrite Hv. cbn [bind].
+    match goal with |- context [negb ?b] => destruct (negb b) end; [exact H|].
+    destruct ctor as [fname|]; [|exact H].
+    rewrite lget_app. destruct (lget prog fname) as [f|]; [|discriminate].
+    apply bind_Ok in H. destruct H as [l [Hl H]]. rewrite Hl. cbn [bind].
+    apply bind_Ok in H. destruct H as [r1 [Hr1 H]]. rewrite (IH _ _ _ Hr1). cbn [bind]. exact H.
+Qed.
+
+Lemma call_prog_extend : forall fuel f pfx vs s r, call prog vtab fuel f pfx vs s = Ok r -> call (prog ++ ext) vtab fuel f pfx vs s = Ok r.
+Proof.
+  unfold call. intros fuel f pfx vs s r H. rewrite lget_app. destruct (lget prog f) as [fn|]; [|discriminate].
+  apply bind_Ok in H. destruct H as [l [Hl H]]. rewrite Hl. cbn [bind].
+  apply bind_Ok in H. destruct H as [r1 [H1 H]]. rewrite (exec_prog_extend _ _ _ _ H1). cbn [bind]. exact H.
+Qed.
+End Extend.
